@@ -52,6 +52,15 @@ Theorem C07_transport_closed : forall sc, in_scope sc = true ->
     transport_closed (exec (sys_of sc) sched) = true.
 Proof. exact transport_closed_on_return. Qed.
 
+(* the graceful path Transport.Close(false) — the one that takes implLock, which a blocked read
+   holds — is entered only after the reader goroutine has returned (so after its deferred Unlock):
+   it cannot deadlock against a blocked read *)
+Theorem C07_graceful_close_after_reader_exit : forall sc, in_scope sc = true ->
+  forall (sched : sched) t, (t = T_CLOSER1 \/ (t = T_CLOSER2 /\ sc_second sc = true)) ->
+    in_graceful sc (exec (sys_of sc) sched) t = true ->
+    exited_at (sys_of sc) (exec (sys_of sc) sched) T_READER = true.
+Proof. exact graceful_only_after_reader_exit. Qed.
+
 (* no goroutine outlives Close: in every reachable state in which no thread can move any more and
    the Close calls have returned, the reader goroutine, the NETCONF read loop / in-flight caller
    and the RPC waiter are at Exit — when the transport's blocked read returns (EOF or error) on
@@ -116,6 +125,18 @@ Theorem C07_rpc_poller_partial : forall sc, in_scope sc = true ->
     exited_at (sys_of sc) s T_POLLER = true \/ poller_stranded s = true.
 Proof. exact poller_gone_or_stranded. Qed.
 
+(* the System transport (transport/system.go): System.Close assigns the plain field `fd`, which
+   System.Read loads, and the forced Transport.Close(true) runs it without implLock: a data race
+   (witness); it is the only one and needs the forced path; nothing panics *)
+Theorem C07_system_fd_race_refuted : races sys_fd1 (exec sys_fd1 w_fd_race) = true.
+Proof. exact system_fd_race. Qed.
+
+Theorem C07_system_fd_race_partial : forall second tc (sched : sched),
+  let s := exec (system_sys tc second) sched in
+  panic s = 0 /\
+  (races (system_sys tc second) s = true -> pc_of s T_CLOSER1 = 8 \/ pc_of s T_CLOSER2 = 8).
+Proof. exact system_fd_race_only_forced. Qed.
+
 (* ---------- the original code (cc33fde): refuted, with witness schedules ---------- *)
 
 Theorem C07_old_refuted_second_close :
@@ -145,6 +166,7 @@ Qed.
 Print Assumptions C07_no_panic.
 Print Assumptions C07_close_never_stuck.
 Print Assumptions C07_transport_closed.
+Print Assumptions C07_graceful_close_after_reader_exit.
 Print Assumptions C07_no_leak.
 Print Assumptions C07_no_leak_live.
 Print Assumptions C07_no_leak_blocking.
@@ -153,6 +175,8 @@ Print Assumptions C07_race_free.
 Print Assumptions C07_no_plain_access.
 Print Assumptions C07_rpc_poller_refuted.
 Print Assumptions C07_rpc_poller_partial.
+Print Assumptions C07_system_fd_race_refuted.
+Print Assumptions C07_system_fd_race_partial.
 Print Assumptions C07_old_refuted_second_close.
 Print Assumptions C07_old_refuted_send_on_closed.
 Print Assumptions C07_old_refuted_race.
@@ -174,6 +198,9 @@ Eval vm_compute in
   (length scenarios,
    fold_left (fun a x => N.add a (N.of_nat x)) (concat (concat count_table)) 0%N).
 
+Eval vm_compute in
+  map (fun b2 => map (fun tc => length (system_reach b2 tc)) all_tcs) all_bools.
+
 (* the original code: (states, panic states, racy states, quiescent states with a thread left) *)
 Eval vm_compute in
   map old_census [ mkSc CLI StAny TcEOF false false; mkSc CLI StAny TcEOF true true;
@@ -184,6 +211,7 @@ Open Scope string_scope.
 Eval vm_compute in show_sched (sys_of sc_blocked_stays) w_reader_remains.
 Eval vm_compute in show_sched (sys_of sc_rpc) w_poller_stranded.
 Eval vm_compute in show_sched (sys_of sc_rpc) w_poller_stranded_noclose.
+Eval vm_compute in show_sched sys_fd1 w_fd_race.
 Eval vm_compute in show_sched (old_sys_of osc_second) ow_second.
 Eval vm_compute in show_sched (old_sys_of osc_ioerr) ow_ioerr.
 Eval vm_compute in show_sched (old_sys_of osc_race) ow_race.
